@@ -40,6 +40,10 @@ func (s *S) PtrHello() string {
 func (s S) Add(n int) int         { return s.N + n }
 func (s S) Fail() (string, error) { return "", errFail }
 
+type named string
+
+type namedMap map[string]int
+
 type boxed struct {
 	Name string
 	Tag  interface{}
@@ -61,7 +65,7 @@ func (i *iter) Next() interface{} {
 	return i.n
 }
 
-const nKinds = 29
+const nKinds = 33
 
 // val: a value of kind k (payloads arbitrary where a payload can matter).
 func val(k int) interface{} {
@@ -123,8 +127,18 @@ func val(k int) interface{} {
 		return []S{{Name: "e"}}
 	case 27: // comparable static type, unhashable content
 		return [1]interface{}{[]int{1}}
-	default:
+	case 28:
 		return boxed{Name: "b", Tag: []string{"t"}}
+	case 29:
+		m := map[string]int{"a": 1}
+		return &m
+	case 30:
+		arr := [2]int{1, 2}
+		return &arr
+	case 31:
+		return named("n")
+	default:
+		return namedMap{"a": 1}
 	}
 }
 
@@ -177,7 +191,14 @@ func IndexRead() {
 }
 
 func IndexWrite() {
-	c, i, v := vrt.Choice(nKinds), vrt.Choice(nKinds), vrt.Choice(nKinds)
+	c, i := vrt.Choice(nKinds), vrt.Choice(nKinds)
+	v := 0
+	if vrt.Tier() > 0 {
+		v = vrt.Choice(nKinds)
+	} else {
+		// quick: a representative third of the assigned value kinds
+		v = []int{0, 2, 4, 5, 7, 8, 9, 11, 14, 17, 23, 27, 31}[vrt.Choice(13)]
+	}
 	ctx := plush.NewContext()
 	ctx.Set("c", val(c))
 	ctx.Set("i", val(i))
@@ -304,9 +325,13 @@ func TokenPrograms() {
 	for i := 0; i < k; i++ {
 		src += atoms[vrt.Choice(len(atoms))] + " "
 	}
-	if vrt.Bool() {
-		total("<%= "+src+"%>", ctx)
-	} else {
+	silent := false
+	if vrt.Tier() > 0 {
+		silent = vrt.Bool()
+	}
+	if silent {
 		total("<% "+src+"%><%= n %>", ctx)
+	} else {
+		total("<%= "+src+"%>", ctx)
 	}
 }
